@@ -32,7 +32,11 @@ defects of the callee - the contract relied on is now an obligation of its own (
 supplied by a harness must observe the state they are called in (C10.node); (iii) exotic / non-zero-level cells and equivalent
 spellings are separate shape classes (C08, C12, C19.dag); (iv) loops in comprehensions are loops (ghost ticks), and count fields are
 made symbolic (C19.boc_header); (v) a change that takes the code out of the loader's transparent fragment or makes a harness decoder
-run off a malformed result must end in a verdict from the native stand-ins, not in a checker fault.
+run off a malformed result must end in a verdict from the native stand-ins, not in a checker fault; (vi) rounds six and seven (40
+seeds, 9 missed at first, most of them reported by the check of a NEIGHBOURING property): boundaries of quantified ranges that a case
+list started above (width 0, 1017..1023 data bits, m = 0), wrappers read only from a fresh slice (reference cursor), generators
+called with defaults only, equal-but-distinct objects as opposed to shared ones, and per-object caches that survive a change further
+down (C17.reserialize) or a different enclosing bag (C04/C08 shared_object).
 
 ''' + '\n'.join(rows) + '''
 
